@@ -49,6 +49,32 @@ func checkC02(c *Check) {
 	c02CommitRecordWriters(c)
 	c02RecordMaps(c)
 	c02ErrorsNotSwallowed(c)
+	c02CleanupOnlyWhenGone(c)
+}
+
+// R9: while loading, parts of a message are deleted only because a sibling file is known not to exist – never because
+// a file could not be examined (a transient I/O error at start-up must not destroy a stored message).
+func c02CleanupOnlyWhenGone(c *Check) {
+	c.Rule("R9", "recovery / loading: a spool file is removed only on the edge where a sibling file does not exist (os.IsNotExist of that very error); any other error leaves everything in place", 3)
+	isRm := calling("~/" + queueRel + ".Queue.tryRemoveDanglingFile", "os.Remove", "os.RemoveAll", "~/" + queueRel + ".Queue.removeFromDisk")
+	for _, fn := range []string{"readDiskQueue", "openMessage", "readMessageMeta"} {
+		r := c.In(queueRel, "Queue", fn)
+		if r == nil {
+			c.Fail("R9", fn, token.NoPos, "anchor unresolved")
+			continue
+		}
+		info := r.Info
+		rms := r.Calls(isRm)
+		// in the world where no error "is a not-exist error", no removal is reachable
+		w := r.F.World(func(atom ast.Expr) (bool, bool) {
+			if call, ok := ast.Unparen(atom).(*ast.CallExpr); ok && (isCall(info, call, "os.IsNotExist") || (isCall(info, call, "errors.Is") && len(call.Args) == 2 && strings.HasSuffix(exprStr(call.Args[1]), "ErrNotExist"))) {
+				return false, true
+			}
+			return false, false
+		})
+		path, f := r.F.Reach(Query{From: r.Entry(), Inclusive: true, Target: isPt(rms), AvoidEdge: w})
+		c.Hold("R9", fn+":remove-only-if-sibling-gone", r.FI.Decl.Pos(), !f, "a stored file is removed on a path where nothing is known to be missing (an unreadable or temporarily inaccessible file makes the loader delete the rest of the message): "+r.F.Describe(path))
+	}
 }
 
 // R8: storing and loading report their failures. For every call in the storage functions whose error result is kept,
